@@ -323,6 +323,9 @@ func c11Rename(c *Ctx, idx int) {
 		if l1.Err == nil {
 			want.M = rn.value(l1.M)
 		}
+		if MultiFaultOK(ref.Search(text, doc), want, l2) {
+			continue
+		}
 		if !SameOutcome(want, l2, Enumerates(text)) {
 			c.Report(Violation{Rule: "C11/renaming", Expr: text, Data: ref.ToJSONText(doc), Got: ShowOut(l2), Want: ShowOut(want), Detail: "renamed expression: " + text2 + " ; renamed document: " + ref.ToJSONText(doc2), Features: map[string]string{"renaming": rn.name}})
 		}
